@@ -705,7 +705,16 @@ class Exec:
                     for qp, how, value in results:
                         if how == "return":
                             np = p.clone()
-                            np.pc, np.trace, np.ghost = qp.pc, qp.trace, qp.ghost
+                            np.pc, np.trace, np.ghost = qp.pc, qp.trace, dict(qp.ghost)
+                            np.ghost["_visits"] = p.ghost.get("_visits", {})
+                            # write back what the callee did through `&mut` arguments
+                            for raw, cl in zip(args, callee.args):
+                                lm = re.match(r"^(?:move|copy) (_\d+)$", raw.strip())
+                                if lm and fn.types.get(lm.group(1), "").startswith("&mut") and cl in qp.env:
+                                    np.env[lm.group(1)] = qp.env[cl]
+                                    tgt = p.ghost.get("_refs", {}).get(fn.name + ":" + lm.group(1))
+                                    if tgt:
+                                        self.assign(np, tgt, qp.env[cl])
                             self.assign(np, dst, value if value is not None else fresh("unit"))
                             conts.append(np)
                         elif how in ("dead", "unreachable"):
